@@ -105,7 +105,7 @@ def template(insert=None, act=None, conf='', later_def_phase=None):
     return phase
 
 
-def build_case(markers, insert, act_line=None, conf_lines=(), later_in=None):
+def build_case(markers, insert, act_line=None, conf_lines=(), later_in=None, include_first=False):
     body = {}
     for p in PHASES:
         body[p] = ['$ touch %s/%s-1' % (markers, p), '$ touch %s/%s-2' % (markers, p)]
@@ -117,7 +117,8 @@ def build_case(markers, insert, act_line=None, conf_lines=(), later_in=None):
         p, pos, text = insert
         lst = body[p]
         idx = {0: 0, 1: 1, 2: len(lst)}[pos]
-        lst[idx:idx] = text.split('\n')
+        # (optionally) a valid `including` directive just before the defective instruction: the phase continues after it
+        lst[idx:idx] = (['including c03-inc.xly'] if include_first else []) + text.split('\n')
     if later_in is not None:
         body[later_in].append('def string C03_LATER = x')
     body['setup'] = prereq + body['setup']
@@ -143,8 +144,10 @@ def gen_cases(ctx, markers):
                     later = None
                     if cls == 'symbol defined later':
                         later = rng.choice(PHASES[PHASES.index(p):])
-                    cases.append((cls, stage, {'phase': p, 'position': ['first', 'middle', 'last'][pos], 'instruction': text},
-                                  build_case(markers, (p, pos, text), later_in=later)))
+                    inc = rng.chance(0.3)
+                    cases.append((cls, stage, {'phase': p, 'position': ['first', 'middle', 'last'][pos], 'instruction': text,
+                                               'preceded by a valid including directive': inc},
+                                  build_case(markers, (p, pos, text), later_in=later, include_first=inc)))
     for act in ('"unterminated', "'unterminated arg", 'prog "unterminated arg',
                 # a superfluous source line after a complete program (command-line actor)
                 '% true\nstray text', '% true\n% true', '@ C03_PROG\nstray', '% true\n    -stdin x\nstray'):
@@ -291,6 +294,7 @@ def run(ctx, res):
     for d in (sbx, markers, home):
         os.makedirs(d)
     open(os.path.join(home, 'exists.txt'), 'w').write('1\n2\n')
+    open(os.path.join(home, 'c03-inc.xly'), 'w').write('$ touch %s/included\n' % markers)
     created = []
     mp = impl.main_program(sbx, on_create=created.append)
     res.rule = ('template case with two marker-writing instructions in each of setup/before-assert/assert/cleanup and a marker-writing '
